@@ -182,6 +182,9 @@ def plan_failures(plan, repo):
             info["evals"] += sum(1 for r in res["obs"] if r.get("outcome") in ("ok", "raised",
                                                                              "crashed"))
             all_obs.append([res["obs"], res["fails"], res["files"]])
+            for rec in res["obs"]:
+                if rec.get("op") == "CONC" and rec.get("switches"):
+                    info.setdefault("scheds", []).append(rec["sched"])
             for key in sorted(res["probes"]):
                 info["probes"][key] = info["probes"].get(key, 0) + res["probes"][key]
             for key in sorted(res["stats"]):
@@ -221,6 +224,13 @@ def abstract_history(plan, results):
         out.append("|seg")
         for rec in res["obs"]:
             op = byi.get(rec["i"], {})
+            if rec["op"] == "CONC":
+                # lanes' calls and the interleaving actually executed
+                calls = "/".join(",".join(s["k"] + ":" + (s.get("fmt") or s.get("name") or "")
+                                          for s in lane) for lane in op.get("lanes", []))
+                out.append("CONC.%s..%s.%s" % (calls, rec.get("sched", ""),
+                                               rec.get("outcome", "")))
+                continue
             out.append("%s.%s.%s.%s.%s" % (
                 rec["op"], op.get("fmt") or op.get("name") or "",
                 op.get("writer") or op.get("obj") or "",
@@ -537,6 +547,43 @@ def shrink(plan, target, repo, budget=120, known=None, log=None, seconds=90):
             cand["segments"][sidx]["disk_cfg"] = {}
             if attempt(cand):
                 best = cand
+    # 3b. schedules: fewer lanes, fewer calls per lane, fewer switches
+    progress = True
+    while progress and spent[0] < budget:
+        progress = False
+        for sidx, seg in enumerate(best["segments"]):
+            for oidx, op in enumerate(seg["ops"]):
+                if op["op"] != "CONC":
+                    continue
+                cands = []
+                if len(op["lanes"]) > 2:
+                    for li in range(len(op["lanes"])):
+                        c = copy.deepcopy(op)
+                        del c["lanes"][li]
+                        cands.append(c)
+                for li, lane in enumerate(op["lanes"]):
+                    for si in range(len(lane)):
+                        if len(lane) > 1:
+                            c = copy.deepcopy(op)
+                            del c["lanes"][li][si]
+                            cands.append(c)
+                for wi in range(len(op.get("switches", []))):
+                    c = copy.deepcopy(op)
+                    gone = c["switches"].pop(wi)
+                    if wi < len(c["switches"]):
+                        c["switches"][wi][0] += gone[0]   # later switches stay where they were
+                    cands.append(c)
+                for c in cands:
+                    cand = copy.deepcopy(best)
+                    cand["segments"][sidx]["ops"][oidx] = c
+                    if attempt(cand):
+                        best = cand
+                        progress = True
+                        break
+                if progress or spent[0] >= budget:
+                    break
+            if progress or spent[0] >= budget:
+                break
     # 4. models
     progress = True
     while progress and spent[0] < budget:
